@@ -376,6 +376,29 @@ impl io::Read for SimSource {
             None => unreachable!("blocking source never returns Pending"),
         }
     }
+    /// A device with a native scatter read.
+    fn read_vectored(&mut self, bufs: &mut [io::IoSliceMut<'_>]) -> io::Result<usize> {
+        let total: usize = bufs.iter().map(|b| b.len()).sum();
+        let mut tmp = vec![0u8; total];
+        let mut core = self.0.borrow_mut();
+        core.obs.borrow_mut().fault(fk::vectored_io);
+        match core.serve(&mut tmp, false) {
+            Some(Ok(n)) => {
+                let mut off = 0;
+                for b in bufs.iter_mut() {
+                    if off >= n {
+                        break;
+                    }
+                    let k = b.len().min(n - off);
+                    b[..k].copy_from_slice(&tmp[off..off + k]);
+                    off += k;
+                }
+                Ok(n)
+            }
+            Some(Err(e)) => Err(e),
+            None => unreachable!("blocking source never returns Pending"),
+        }
+    }
 }
 
 pub struct SimAsyncSource(pub Rc<RefCell<SrcCore>>);
@@ -385,6 +408,35 @@ impl AsyncRead for SimAsyncSource {
         let mut core = self.0.borrow_mut();
         match core.serve(buf, true) {
             Some(r) => Poll::Ready(r),
+            None => {
+                core.wakers_seen += 1;
+                cx.waker().wake_by_ref();
+                Poll::Pending
+            }
+        }
+    }
+
+    /// A real scatter read: one scripted outcome is spread over all the buffers offered (the default
+    /// implementation would only ever fill the first one).
+    fn poll_read_vectored(self: Pin<&mut Self>, cx: &mut Context<'_>, bufs: &mut [io::IoSliceMut<'_>]) -> Poll<io::Result<usize>> {
+        let total: usize = bufs.iter().map(|b| b.len()).sum();
+        let mut tmp = vec![0u8; total];
+        let mut core = self.0.borrow_mut();
+        core.obs.borrow_mut().fault(fk::vectored_io);
+        match core.serve(&mut tmp, true) {
+            Some(Ok(n)) => {
+                let mut off = 0;
+                for b in bufs.iter_mut() {
+                    if off >= n {
+                        break;
+                    }
+                    let k = b.len().min(n - off);
+                    b[..k].copy_from_slice(&tmp[off..off + k]);
+                    off += k;
+                }
+                Poll::Ready(Ok(n))
+            }
+            Some(Err(e)) => Poll::Ready(Err(e)),
             None => {
                 core.wakers_seen += 1;
                 cx.waker().wake_by_ref();
@@ -582,6 +634,19 @@ impl io::Write for SimSink {
             None => unreachable!("blocking sink never returns Pending"),
         }
     }
+    /// A device with a native gather write: the concatenation of the buffers meets one scripted outcome.
+    fn write_vectored(&mut self, bufs: &[io::IoSlice<'_>]) -> io::Result<usize> {
+        let mut all = Vec::new();
+        for b in bufs {
+            all.extend_from_slice(b);
+        }
+        let mut core = self.0.borrow_mut();
+        core.obs.borrow_mut().fault(fk::vectored_io);
+        match core.serve(&all, false) {
+            Some(r) => r,
+            None => unreachable!("blocking sink never returns Pending"),
+        }
+    }
     fn flush(&mut self) -> io::Result<()> {
         let mut c = self.0.borrow_mut();
         c.flush_calls += 1;
@@ -596,6 +661,22 @@ impl AsyncWrite for SimAsyncSink {
     fn poll_write(self: Pin<&mut Self>, cx: &mut Context<'_>, buf: &[u8]) -> Poll<io::Result<usize>> {
         let mut core = self.0.borrow_mut();
         match core.serve(buf, true) {
+            Some(r) => Poll::Ready(r),
+            None => {
+                cx.waker().wake_by_ref();
+                Poll::Pending
+            }
+        }
+    }
+    /// A real gather write: the concatenation of all buffers is what is offered to one scripted outcome.
+    fn poll_write_vectored(self: Pin<&mut Self>, cx: &mut Context<'_>, bufs: &[io::IoSlice<'_>]) -> Poll<io::Result<usize>> {
+        let mut all = Vec::new();
+        for b in bufs {
+            all.extend_from_slice(b);
+        }
+        let mut core = self.0.borrow_mut();
+        core.obs.borrow_mut().fault(fk::vectored_io);
+        match core.serve(&all, true) {
             Some(r) => Poll::Ready(r),
             None => {
                 cx.waker().wake_by_ref();
@@ -673,18 +754,24 @@ pub fn new_waker() -> (Arc<CountWaker>, Waker) {
 pub struct Caller {
     pub lane: Vec<Decide>,
     pub pos: usize,
+    /// decision once the lane is exhausted (the benign environment never returns Pending by itself, so
+    /// `Cancel` here only ever meets a Pending that the code under test produced on its own)
+    pub default: Decide,
 }
 
 impl Caller {
     pub fn new(lane: Vec<Decide>) -> Self {
-        Caller { lane, pos: 0 }
+        Caller { lane, pos: 0, default: Decide::Poll }
+    }
+    pub fn with_default(lane: Vec<Decide>, default: Decide) -> Self {
+        Caller { lane, pos: 0, default }
     }
     pub fn next(&mut self) -> Decide {
         if self.pos < self.lane.len() {
             self.pos += 1;
             self.lane[self.pos - 1]
         } else {
-            Decide::Poll
+            self.default
         }
     }
     pub fn done(&self) -> bool {
